@@ -28,7 +28,8 @@ META = {
                   "9.10.5 and as modelled by the repository's own test fakes), z3/cvc5, symx semantics (each "
                   "path re-run concretely). One disturbance (short bank / hole / fault) per path.",
     "explanation": "symbolic execution of read_raw / read / read_all driven against the memory model",
-    "bounds": ["every declared value + LastAddress/LockByte of every bank, gear and device addressing",
+    "bounds": ["latching read_all of a bank found latched; interpreted read() of values up to 8 locations under hole / short bank / fault with memory compared afterwards",
+               "every declared value + LastAddress/LockByte of every bank, gear and device addressing",
                "value bytes symbolic (all widths incl. 24/60-byte strings), last accessible location 0..254 "
                "symbolic, one hole at a symbolic position, one fault at a symbolic read",
                "read_all: last accessible location = every boundary around the bank's values (thorough: "
